@@ -688,7 +688,14 @@ def execute_world(trace):
                         known_cells.setdefault(i, sig)
     base = {}
     for k, normal in outcomes:
-        pk = digest(trace['schedules'][k]['placement'])
+        # (a two-stage build calls the cycle solver twice, on different
+        # graphs: where no clause fixes the outcome - #CIRC! out of caution or
+        # a value that is a fixed point - it may differ from the one-stage
+        # build; such schedules are compared among themselves and judged
+        # clause by clause)
+        sk = trace['schedules'][k]
+        pk = digest([sk['placement'], sk.get('split'), sk.get('mid_calc')
+                     if sk.get('split') else None])
         if pk not in base:
             base[pk] = (k, normal)
             continue
